@@ -15,8 +15,8 @@ CONTRACT = "cosmos2contract"
 ACCOUNTS = ["alice", "bob", "carol", "dave", "erin", "frank", "grace", "heidi"]
 RATES = ["0", "0.003", "0.01", "0.1", "0.5", "0.25", "0.0005", "1", "0.999", "1.5", "0.05", "0.005",
          "0.0954045954045954045954045954", "0.00000000000000000001", "-0.01", "0.3333333333333333333333333333",
-         "2.5e-3", "1E-2", "1e0", ".01", "0.01_"]
-RATE_W = [3, 6, 6, 6, 4, 3, 3, 1, 1, 1, 4, 3, 1, 1, 1, 1, 1, 1, 0.5, 0.5, 0.5]
+         "2.5e-3", "1E-2", "1e0", ".01", "0.01_", " 0.02", "0.02 ", "\t0.01", "0.0 1"]
+RATE_W = [3, 6, 6, 6, 4, 3, 3, 1, 1, 1, 4, 3, 1, 1, 1, 1, 1, 1, 0.5, 0.5, 0.5, 0.7, 0.7, 0.4, 0.3]
 
 
 def parse_dec(s):
@@ -472,7 +472,9 @@ class World:
                 return rate, rng.choice(self.accounts)
             if r < 0.92:
                 return rng.choices(RATES, RATE_W)[0], rng.choice(self.accounts)
-            return rng.choice([(None, "alice"), ("0.1", None), ("abc", "alice"), ("0.1", "X"), ("", "alice")])
+            return rng.choice([(None, "alice"), ("0.1", None), ("abc", "alice"), ("0.1", "X"), ("", "alice"), ("0.1", ""),
+                               (cur[1] if cur else "0.01", ""), ((cur[1] + "0") if cur and "." in cur[1] else "0.010", ""),
+                               (" " + (cur[1] if cur else "0.01"), rng.choice(self.accounts))])
         afr, afa = pair(c.ask_fee)
         bfr, bfa = pair(c.bid_fee)
         if rng.random() < 0.08 and c.bid_fee:
